@@ -130,6 +130,11 @@ Pats == <<<<97>>,
           <<63>>,
           <<124>>,
           <<123>>,
+          <<58>>,
+          <<92, 58>>,
+          <<32, 58, 97>>,
+          <<58, 97>>,
+          <<97, 92, 58, 98>>,
           <<45, 45>>,
           <<47, 42>>,
           <<39, 59>>,
